@@ -17,6 +17,7 @@ import Tahoe.Dir.EditLemmas
 | "a failed rename leaves the child linked under its old name" | `failed_rename_keeps_old_link`, `rename_never_loses_child` (also the success and the redundant-rename cases) |
 | "an entry's link-creation time survives updates while its modification time advances" | `linkcrtime_preserved_linkmotime_now`, `linkmotime_monotone` |
 | re-creation of the child node from the stored caps on the next read | C19 (`unpack_pack`, `canon_*`); here a stored child *is* its (kind, write cap, read cap): **correspondence** (listing after every op) |
+| the modifier retry loop (`first_time = False` after an UncoordinatedWriteError; `Deleter`'s `first_time and must_exist`) | `retries_refine_map` (any sequence of re-read contents; tied by calling the real `Deleter.modify(contents, None, first_time)` on real contents) |
 | read-only handles, `create_subdirectory`/`add_file` side effects (upload, new directory) | handles: in the model (`NotWriteable`, `viewThrough`); uploads: **not covered** |
 -/
 namespace Tahoe.C20
@@ -266,6 +267,45 @@ example :
        some [("extra", .null), ("linkcrtime", .other true "12345"), ("linkmotime", .time 9)]⟩ ∧
     updateMetadata (some old) (some ⟨[], some [("linkcrtime", .time 1)]⟩) 9 =
       ⟨[], some [("extra", .null), ("linkcrtime", .other true "12345"), ("linkmotime", .time 9)]⟩ := by decide
+
+/-- **The name-map refinement extends over modifier retries.**  When a publish fails with
+    UncoordinatedWriteError, `MutableFileVersion.modify` reads the directory again — finding whatever another writer
+    left — and applies the same modifier with `first_time = False`.  For every sequence of such re-read contents the
+    outcome of the whole loop (result, error, contents to publish) is that of the same loop on name maps, for each of
+    the three modifiers: `Deleter` (whose `must_exist` is only enforced the first time: `first_time and must_exist`),
+    `Adder` and `MetadataSetter` (which do not look at `first_time` at all — in particular the no-overwrite and
+    only-files refusals apply to the re-read contents too). -/
+theorem retries_refine_map (c : Children Name C) (reads : List (Children Name C))
+    (namex : Name) (mustExist mustBeDir mustBeFile : Bool)
+    (ow : Overwrite) (now : Nat) (entries : List (Name × Node C × Option Meta)) (md : Meta) :
+    (retryLoop (fun ft x => deleterModifyFT norm ft namex mustExist mustBeDir mustBeFile x) true c reads).map
+        (fun r => (absC r.1, r.2)) =
+      specRetryLoop (fun ft m => specDelete norm namex (ft && mustExist) mustBeDir mustBeFile m) true (absC c)
+        (reads.map absC) ∧
+    (retryLoop (fun _ x => adderModify norm ow now x entries) true c reads).map absC =
+      specRetryLoop (fun _ m => specAddMany norm ow now m entries) true (absC c) (reads.map absC) ∧
+    (retryLoop (fun _ x => metadataSetterModify norm namex md now x) true c reads).map absC =
+      specRetryLoop (fun _ m => specSetMetadata norm namex md now m) true (absC c) (reads.map absC) := by
+  refine ⟨?_, ?_, ?_⟩
+  · exact retryLoop_spec _ _ _ (fun ft x => deleterModify_spec norm namex (ft && mustExist) mustBeDir mustBeFile x) _ _ _
+  · exact retryLoop_spec _ _ _ (fun _ x => adderModify_spec norm ow now x entries) _ _ _
+  · exact retryLoop_spec _ _ _ (fun _ x => metadataSetterModify_spec norm namex md now x) _ _ _
+
+/-- a delete whose first attempt removed the child and then collided succeeds on the retry although the child is
+    gone; the same contents met the *first* time are an error; a no-overwrite add is refused on the retry as well -/
+example :
+    let c : Children String Nat := [("a", (⟨.file, none, some 1, false⟩, Meta.empty))]
+    (match retryLoop (fun ft x => deleterModifyFT (fun n => n) ft "a" true false false x) true c [[]] with
+     | .ok (ch, old) => ch.isEmpty && old.isNone
+     | .error _ => false) = true ∧
+    (match retryLoop (fun ft x => deleterModifyFT (fun n => n) ft "a" true false false x) true
+        ([] : Children String Nat) [] with
+     | .error e => e == .noSuchChild
+     | .ok _ => false) = true ∧
+    (match retryLoop (fun _ x => adderModify (fun n => n) .no 5 x [("b", ⟨.file, none, some 2, false⟩, none)]) true c
+        [[("b", (⟨.file, none, some 9, false⟩, Meta.empty))]] with
+     | .error e => e == .existingChild
+     | .ok _ => false) = true := by decide
 
 /-- clock values of a history never go backwards (starting from `T`) -/
 def clockOk : Nat → List (Nat × Op Name C) → Prop
